@@ -124,7 +124,32 @@ func ruleRequestTuples(c *Ctx, rule string) {
 				if ok, why := w.requestTuple(a, fn); ok {
 					c.OK(rule, fname(fn), cal.Name()+" tuple", w.instrPos(in), why)
 				} else {
-					c.Bad(rule, fname(fn), cal.Name()+" tuple", w.instrPos(in), "manager is addressed with a tuple that is not the request's own: "+why)
+					// a stage shared by several handlers (a method of the per-request context
+					// object): the tuple expressed at every handler the call is reached from
+					isReq := func(r *ssa.Function) bool {
+						return r != nil && len(r.Params) > 0 && strings.HasSuffix(r.Params[0].Type().String(), "server.Request")
+					}
+					nUp, okUp := 0, !isReq(w.bodyRoot(fn))
+					if okUp {
+						for _, lc := range w.liftCalls(cal, isReq, 5) {
+							if lc.orig != ci {
+								continue
+							}
+							nUp++
+							if !isReq(lc.fn) || i >= len(lc.args) {
+								okUp = false
+								continue
+							}
+							if ok2, _ := w.requestTuple(lc.args[i], lc.fn); !ok2 {
+								okUp = false
+							}
+						}
+					}
+					if okUp && nUp > 0 {
+						c.OK(rule, fname(fn), cal.Name()+" tuple", w.instrPos(in), fmt.Sprintf("the request's own tuple at each of the %d handler call chains that reach this stage", nUp))
+					} else {
+						c.Bad(rule, fname(fn), cal.Name()+" tuple", w.instrPos(in), "manager is addressed with a tuple that is not the request's own: "+why)
+					}
 				}
 			}
 		})
@@ -499,6 +524,48 @@ func ruleAllocSources(c *Ctx, rule string) {
 					}
 				}
 				if isNilConst(root) {
+					continue
+				}
+				// the result of a thin wrapper in this package (r.ownedAllocation(user)): every
+				// allocation it can return comes from an allowed lookup
+				var wrapped func(v ssa.Value, d int) bool
+				wrapped = func(v ssa.Value, d int) bool {
+					r := w.allocRoot(v)
+					if isNilConst(r) {
+						return true
+					}
+					wc, wi := callOf(r)
+					if wc == nil || d > 3 {
+						return false
+					}
+					h := wc.Call.StaticCallee()
+					if allowed[h] {
+						return true
+					}
+					if h == nil || !w.IsMod[h] || fnPkgPath(h) != serverPath || len(h.Blocks) == 0 {
+						return false
+					}
+					if wi < 0 {
+						wi = 0
+					}
+					n := 0
+					for _, ret := range returnsOf(h) {
+						if wi >= len(ret.Results) {
+							return false
+						}
+						rv := w.resolveLoad(ret.Results[wi])
+						if isNilConst(rv) {
+							continue
+						}
+						n++
+						if !wrapped(rv, d+1) {
+							return false
+						}
+					}
+					return n > 0
+				}
+				if wrapped(root, 0) {
+					c.OK(rule, fname(fn), label, w.instrPos(in), "from a wrapper all of whose results come from a keyed lookup")
 					continue
 				}
 				c.Bad(rule, fname(fn), label, w.instrPos(in), "an *Allocation reaches package server from "+w.desc(root)+" rather than from a lookup keyed by the request's 5-tuple")
